@@ -77,6 +77,14 @@ def chev(ev):
     if ev[0] == "Burst":
         return "(HBurst C%s %s)" % (ev[1], coq_list(ev[2], lambda m: "(%s, %s, %s, %s)" % (coq_Z(m[0]), coq_Z(m[1]), cmname(m[2]),
                                                                                           coq_list(m[3], carg))))
+    if ev[0] == "DefineClass":
+        # a class statement: the registration events the TRANSLATED metaclass says it amounts to (lib/Reach.v define_class);
+        # a Copyable that is no RemoteCopy subclass does not run the metaclass at all
+        if ev[4] == "copyable":
+            return "HNop"
+        ct = {"absent": "CtAbsent", "none": "CtNone"}.get(ev[1][0]) or "(CtStr %s)" % cstr(ev[1][1])
+        ttc = "None" if ev[2] is None else "(Some %s)" % cstr(ev[2])
+        return "(HDefine %s %s %s %s %s)" % (ct, ttc, "false" if ev[5] is None else "true", "true" if ev[6] else "false", coq_Z(ev[3]))
     return "(HX %s)" % cxev(ev)
 
 
@@ -145,7 +153,8 @@ Definition obs (x : xstate) (y : xresult) :=
    nothing is left after each event). *)
 Definition enc_pout (o : pout) : Z * Z * list N :=
   match o with Queued => (8, 0, []) | Idle => (9, 0, []) | Out o' => enc_out o' end.
-Inductive hev := HX (e : xevent) | HBurst (c : cid) (msgs : list (Z * Z * mname * list arg)).
+Inductive hev := HX (e : xevent) | HBurst (c : cid) (msgs : list (Z * Z * mname * list arg))
+  | HDefine (ct : ctattr) (ttc : option string) (priv em : bool) (cls : Z) | HNop.
 Definition sync (x : xstate) (st : state) (c : cid) : xstate :=
   let x' := {| xs_core := st; xs_yours_a := xs_yours_a x; xs_yours_b := xs_yours_b x; xs_accept_gifts := xs_accept_gifts x |} in
   if c_alive (get_conn st c) then x' else set_yours x' c [].
@@ -165,6 +174,9 @@ Definition hstep (w : world) (x : xstate) (e : hev) :=
   match e with
   | HX e0 => let '(x1, y) := xstep w x e0 in (x1, [obs x1 y])
   | HBurst c msgs => prows w x c {| p_st := xs_core x; p_qa := []; p_qb := [] |} (burst c msgs)
+  | HDefine ct ttc priv em cls =>
+    let x1 := fold_left (fun x0 e0 => fst (xstep w x0 (XE e0))) (define_class ct ttc priv em cls) x in (x1, [obs x1 (xres0 Local)])
+  | HNop => (x, [obs x (xres0 Local)])
   end.
 Fixpoint trace (w : world) (x : xstate) (h : list hev) :=
   match h with [] => [] | e :: r => let '(x1, rows) := hstep w x e in rows ++ trace w x1 r end.
@@ -179,8 +191,9 @@ Definition final (w : world) (ag : bool) (h : list hev) :=
 
 # ------------------------------------------------------------------ history generation (on the fly, on the real code)
 class Gen:
-    def __init__(self, rng, bursts=False):
+    def __init__(self, rng, bursts=False, classes=False):
         self.r = rng
+        self.classes = classes      # class mode: some events are class DEFINITIONS (histories of their own, like bursts)
         self.bursts = bursts        # burst mode: some events are several calls in ONE dataReceived (histories of their own, so the
                                     # random stream of the one-call-per-segment histories is what it always was)
 
@@ -246,6 +259,15 @@ class Gen:
             add(self.pick(live) if live else 1, "hi", [])
         return ["Burst", c, msgs]
 
+    def define_class(self, sysm):
+        """["DefineClass", copytype attribute, typeToCopy, class id, bases, private registry or None, that registry is empty]"""
+        names = sysm_class_names()
+        ct = self.pick([["absent"], ["none"], ["none"], ["none"], ["str", ""], ["str", self.pick(names)]])
+        ttc = self.pick([None, self.pick(names), self.pick(names), ct[1] if ct[0] == "str" and ct[1] else self.pick(names)])
+        which = self.pick([None, None, None, None, 0, 1])
+        return ["DefineClass", ct, ttc, self.pick([1, 2, 3]), self.pick(["rc", "both", "both", "both", "copyable"]), which,
+                which is not None and len(sysm.priv[which]) == 0]
+
     def pick(self, xs):
         return xs[self.r.randrange(len(xs))]
 
@@ -289,6 +311,8 @@ class Gen:
                     out.append(["Y", 99])
             elif r < 0.82:
                 names = sorted(copyreg) * 3 + COPY_NAMES + sysm_priv_names() * 2
+                if self.classes:
+                    names = names + sysm_class_names() * 4 + ["AppClass1", "harness.c06_impl.AppClass1"]
                 out.append(["C", self.pick(names)])
             else:
                 out.append(["O", self.pick(DATA_TYPES * 2 + BAD_TYPES)])
@@ -297,6 +321,8 @@ class Gen:
     def event(self, sysm, snap, seen, req, copyreg, i=99, touched=(), force_c=None, plain=False):
         if self.bursts and not plain and i >= 2 and self.r.random() < 0.30:
             return self.burst(sysm, snap, seen, req, copyreg, touched)
+        if self.classes and not plain and self.r.random() < (0.30 if i < 6 else 0.10):
+            return self.define_class(sysm)
         r = self.r.random()
         c = self.pick(["A", "B"])
         if force_c:
@@ -398,6 +424,11 @@ def sysm_declarable():
     return impl.DECLARABLE
 
 
+def sysm_class_names():
+    from harness import c06_impl as impl
+    return impl.CLASS_NAMES
+
+
 def sysm_priv_names():
     from harness import c06_impl as impl
     return impl.PRIV_NAMES
@@ -476,6 +507,14 @@ class Oracle:
                 del self.known[n_]
         if kind == "RegisterCopy" and ev[1] not in self.copyreg and ev[1] in o.get("copykeys", [ev[1]]):
             self.copyreg.setdefault(ev[1], ev[2])
+        if kind == "DefineClass":
+            # the property's own rule for "explicitly registered for pass-by-copy": a RemoteCopy subclass whose body gives a
+            # non-empty copytype, and no private registry -- under that copytype and under nothing else (not its typeToCopy, not
+            # its class name); a class without copytype, with copytype None / "" or a mere Copyable is NOT registered
+            ct_, bases_, which_ = ev[1], ev[4], ev[5]
+            if bases_ != "copyable" and ct_[0] == "str" and ct_[1] and which_ is None and ct_[1] not in self.copyreg \
+                    and ct_[1] in o.get("copykeys", [ct_[1]]):
+                self.copyreg[ct_[1]] = ev[3]
         if kind == "Drop" or (c and not snap["alive" + c]):
             self.held[c] = {}
         if kind not in ("Msg", "Top"):
@@ -780,6 +819,8 @@ def run_history(ctx, impl, events=None, n=25, gen=None, accept_gifts=None):
                     ev[3] = sysm.next_swiss()
                 if ev[0] == "RegisterCopyPriv":
                     ev = ev[:5] + [len(sysm.priv[ev[3]]) == 0]
+                if ev[0] == "DefineClass":
+                    ev = ev[:6] + [ev[5] is not None and len(sysm.priv[ev[5]]) == 0]
             else:
                 if i >= n or dead_probes > 3:
                     break
@@ -791,7 +832,7 @@ def run_history(ctx, impl, events=None, n=25, gen=None, accept_gifts=None):
                 r2 = sysm.rnames()
                 o["regname"] = r2.get(ev[2])       # the name part of the FURL registerReference returned
             o["iface_now"] = {w_: impl.declared_iface(sysm.objs[w_]) for w_ in sysm.objs if w_ not in impl.CALLABLES}
-            if ev[0] == "RegisterCopy":
+            if ev[0] in ("RegisterCopy", "DefineClass"):
                 from foolscap import copyable
                 o["copykeys"] = list(copyable.CopyableRegistry.keys())
             snap = o["snap"]
@@ -1117,6 +1158,43 @@ def method_walk_family():
     return [h]
 
 
+def class_definition_family():
+    """fixed witnesses (round 7): every way an application class can be DEFINED -- RemoteCopy subclass / Copyable and RemoteCopy /
+    Copyable only; copytype absent, None, "", a name; typeToCopy absent, a name, the copytype; no registry attribute, a private
+    registry that is empty / not empty -- each followed by calls that name the class by its typeToCopy, its copytype, its class
+    name and its qualified class name (one call per segment, and all of them once more in ONE segment on the other connection).
+    Only `copytype = <non-empty name>` without a private registry makes a class receivable, and only under that name."""
+    B_ = lambda t: list(t.encode())
+    hs = []
+    for bases in ("rc", "both", "copyable"):
+        for which in (None, 0, 1):
+            h = [["RegisterCopy", "my.rc1", 1], ["Grant", "A", 1, ""], ["Grant", "B", 2, ""]]
+            req = 0
+            every = []
+            k = 0
+            for ctk in ("absent", "none", "empty", "name"):
+                for ttk in ("absent", "name", "same"):
+                    k += 1
+                    c_, t_ = "app.c%d" % k, "app.t%d" % k
+                    ct = dict(absent=["absent"], none=["none"], empty=["str", ""], name=["str", c_])[ctk]
+                    if ttk == "same" and ctk != "name":
+                        continue
+                    ttc = dict(absent=None, name=t_, same=c_)[ttk]
+                    h.append(["DefineClass", ct, ttc, 1 + k % 3, bases, which, False])
+                    cname = "AppClass%d" % sum(1 for e in h if e[0] == "DefineClass")
+                    names = [n for n in (ttc, c_ if ctk == "name" else "" if ctk == "empty" else None, cname, "harness.c06_impl." + cname)
+                             if n is not None]
+                    names = sorted(set(names), key=names.index)
+                    for n in names:
+                        req += 1
+                        h.append(["Msg", "A", req, 1, B_("hi"), [["C", n]]])
+                    every += names
+            h.append(["Burst", "B", [[i + 1, 1, B_("hi"), [["C", n]]] for i, n in enumerate(every[:8])]])
+            h.append(["Msg", "B", 20, 1, B_("hi"), [["C", n] for n in every[8:14]]])
+            hs.append(h)
+    return hs
+
+
 PIPELINED_SIG = "oracle/released-id-entered-when-pipelined"
 
 
@@ -1278,7 +1356,9 @@ def _run(ctx):
                 "objects (plain, interface-bearing, bound methods), registrations, copyable registrations, and hand-built inbound "
                 "token sequences (call with live / other-connection / stale / 0 / negated / huge clids, 21 method names incl. dunder, "
                 "dotted, empty, non-ASCII, double prefix, undecodable; your-reference / copyable / other OPEN types as arguments; "
-                "getReferenceByName / decref / decgift on clid 0; other top-level sequences); 7 fixed and 36 (thorough 700) generated histories "
+                "getReferenceByName / decref / decgift on clid 0; other top-level sequences); 9 fixed histories of class DEFINITIONS (RemoteCopy "
+                "subclass / Copyable+RemoteCopy / Copyable only x copytype absent, None, '', a name x typeToCopy x private registry), each named "
+                "by the peer by typeToCopy, copytype and class name, and 10 (thorough 500) generated ones; 7 fixed and 36 (thorough 700) generated histories "
                 "in which 2-8 calls arrive in ONE dataReceived (all parsed before any is delivered: release-then-call, call-then-release, "
                 "lookup-then-call, a protocol error in the middle).  Distinct = distinct event list; "
                 "non-trivial = at least one message entered code, at least one was refused, and both connections were used")
@@ -1302,6 +1382,10 @@ def _run(ctx):
         "events run the one-step machine, which is the two-step one for a call on an idle connection (C06_atomic_is_parse_then_deliver); "
         "every harness event ends with the reactor idle, so every event starts with empty delivery queues; calls in a burst carry no "
         "my-/their-reference arguments",
+        "class definitions (DefineClass) are built with type(name, bases, dict), which runs the metaclass exactly as a class statement "
+        "does; the model expands one into the registration events the translated RemoteCopyClass.__init__ (metaclass_registers) says "
+        "it amounts to (lib/Reach.v define_class); the oracle's rule for 'explicitly registered' is its own: a RemoteCopy subclass with "
+        "a non-empty copytype and no private registry, under that copytype only",
         "Tub.generateSwissnumber is replaced per Tub instance by a counter so that model and implementation can be compared; "
         "unguessability: translated facts NAMEBITS = 160 and 'the name is base32 of os.urandom(bits//8)' (C06_swissnum_bits), plus a "
         "peer-side prediction attack on the real generator (MT19937 state recovery from 126 observed names) that must fail",
@@ -1386,6 +1470,11 @@ def _run(ctx):
         evs, obs, final, fails = run_history(ctx, impl, events=h)
         account(evs, obs, final, fails, "bursts-%d" % i)
         ctx.hist("origin", "bursts")
+    # 1e. fixed witnesses: class definitions (who is "explicitly registered for pass-by-copy")
+    for i, h in enumerate(class_definition_family()):
+        evs, obs, final, fails = run_history(ctx, impl, events=h)
+        account(evs, obs, final, fails, "class-definitions-%d" % i)
+        ctx.hist("origin", "class-definitions")
     # 2. generated histories on the real code, with the direct oracle
     g = Gen(ctx.rng)
     nh = ctx.n(120, 2500)
@@ -1405,6 +1494,12 @@ def _run(ctx):
         ctx.hist("origin", "generated-bursts")
         if i < 1:
             ctx.sample(dict(history=evs[:8], outcomes=[o["out"] for o in obs[:8] if o is not None]))
+    # 2c. generated histories in which the application also DEFINES classes (a random stream of their own)
+    gc_ = Gen(_random.Random(1000003 * ctx.seed + 29), classes=True)
+    for i in range(ctx.n(10, 500)):
+        evs, obs, final, fails = run_history(ctx, impl, n=ctx.n(20, 30), gen=gc_)
+        account(evs, obs, final, fails, "generated-classes-%d" % i)
+        ctx.hist("origin", "generated-classes")
     ctx.extra["pipelined_release_histories"] = len(pipelined_seen)
     # 3. correspondence with the Coq model
     model_ok = ok
